@@ -361,13 +361,14 @@ async def scenario(loop: vloop.VirtualLoop, ctx, trial: int) -> None:
 
 
 def run(ctx) -> None:
-    n = 4 if ctx.quick else 40
-    for k in range(n):
-        trial = ctx.shard + k * ctx.nshards
+    n = 3 if ctx.quick else 40
+    for trial in range(n * ctx.nshards):
+        if not ctx.claim(trial):
+            continue
         harness.reset_transport_globals()
 
         async def go(loop, trial=trial):
-            with clocks_patched(), patch("ramses_tx.transport.MIN_INTER_WRITE_GAP", 0.25):
+            with clocks_patched(), patch("ramses_tx.transport.MIN_INTER_WRITE_GAP", 0.25), harness.on_demand_write_spacer():
                 await scenario(loop, ctx, trial)
 
         try:
@@ -389,7 +390,7 @@ def replay(data: dict[str, Any]) -> int:
         harness.reset_transport_globals()
 
         async def go(loop, sc=sc, ctx=ctx):
-            with clocks_patched(), patch("ramses_tx.transport.MIN_INTER_WRITE_GAP", 0.25):
+            with clocks_patched(), patch("ramses_tx.transport.MIN_INTER_WRITE_GAP", 0.25), harness.on_demand_write_spacer():
                 await scenario(loop, ctx, sc["trial"])
 
         vloop.run(go)
